@@ -777,6 +777,7 @@ pub fn issue_op(c: &mut Commands, op: Op, cmd: CmdId, top: bool, rm: Option<&mut
                 Variant::Erring => c.react().once(bundle, erring_actor(new_id, vec![])),
                 Variant::Exclusive => c.react().once(bundle, exclusive_actor(new_id, vec![], false)),
                 Variant::ExclusiveFlush => c.react().once(bundle, exclusive_actor(new_id, vec![], true)),
+                Variant::Deferred => c.react().once(bundle, deferred_actor(new_id, vec![])),
             };
             let e = *SystemCommand::from(tok.clone());
             with_ctx(|x| {
@@ -859,6 +860,7 @@ impl EntityWorldReactor for HarnessEwr
             Variant::Erring => SystemCommandCallback::new(erring_actor(self.0, vec![])),
             Variant::Exclusive => SystemCommandCallback::new(exclusive_actor(self.0, vec![], false)),
             Variant::ExclusiveFlush => SystemCommandCallback::new(exclusive_actor(self.0, vec![], true)),
+            Variant::Deferred => SystemCommandCallback::new(deferred_actor(self.0, vec![])),
         }
     }
 }
@@ -991,6 +993,31 @@ pub fn exclusive_actor(id: ActorId, sigs: Vec<AutoDespawnSignal>, flush_first: b
     }
 }
 
+/// Ordinary (non-exclusive) actors whose commands go through `DeferredWorld::commands()`, i.e. onto the world's own
+/// command queue instead of a system-local buffer. `DeferredWorld` conflicts with every other parameter, so the actor is
+/// a pipe: the first half samples the readers, the second half issues the operations.
+pub fn deferred_actor(id: ActorId, sigs: Vec<AutoDespawnSignal>) -> impl System<In = (), Out = ()>
+{
+    let canary = Canary(id);
+    let mut closure_ctr = 0u32;
+    let a = move |mut r: AllReaders, mut local: Local<StateProbe>| -> (Readers, Vec<Pl>, u32, u32)
+    {
+        let (readers, held) = sample_readers(&mut r, true);
+        let out = (readers, held, local.ctr, local.ordinal);
+        local.ctr += 1;
+        out
+    };
+    let b = move |In((readers, held, ctr, ord)): In<(Readers, Vec<Pl>, u32, u32)>, mut dw: bevy::ecs::world::DeferredWorld|
+    {
+        let _keep = (&canary, &sigs);
+        let mut c = dw.commands();
+        actor_run(id, &mut c, readers, ctr, closure_ctr, Variant::Deferred, None, ord);
+        drop(held);
+        closure_ctr += 1;
+    };
+    IntoSystem::into_system(a.pipe(b))
+}
+
 fn spawn_actor_world(world: &mut World, id: ActorId, variant: Variant, sigs: Vec<AutoDespawnSignal>) -> SystemCommand
 {
     // odd ordinary actors are spawned through the free function, the others through the `World` extension method
@@ -1010,6 +1037,7 @@ fn spawn_actor_world(world: &mut World, id: ActorId, variant: Variant, sigs: Vec
         Variant::Erring => world.spawn_system_command(erring_actor(id, sigs)),
         Variant::Exclusive => world.spawn_system_command(exclusive_actor(id, sigs, false)),
         Variant::ExclusiveFlush => world.spawn_system_command(exclusive_actor(id, sigs, true)),
+        Variant::Deferred => world.spawn_system_command(deferred_actor(id, sigs)),
     };
     with_ctx(|x| {
         x.names.insert(*sc, Name::Actor(id));
@@ -1027,6 +1055,7 @@ fn spawn_actor_commands(c: &mut Commands, id: ActorId, variant: Variant) -> Syst
         Variant::Erring => c.spawn_system_command(erring_actor(id, vec![])),
         Variant::Exclusive => c.spawn_system_command(exclusive_actor(id, vec![], false)),
         Variant::ExclusiveFlush => c.spawn_system_command(exclusive_actor(id, vec![], true)),
+        Variant::Deferred => c.spawn_system_command(deferred_actor(id, vec![])),
     };
     with_ctx(|x| {
         x.names.insert(*sc, Name::Actor(id));
@@ -1136,6 +1165,7 @@ fn run_program(cfg: &Arc<Config>)
             Variant::Erring => { app.add_reactor(b, erring_actor(id, vec![])); }
             Variant::Exclusive => { app.add_reactor(b, exclusive_actor(id, vec![], false)); }
             Variant::ExclusiveFlush => { app.add_reactor(b, exclusive_actor(id, vec![], true)); }
+            Variant::Deferred => { app.add_reactor(b, deferred_actor(id, vec![])); }
         }
         let after: Vec<Entity> = hooks::snapshot(app.world_mut()).system_commands.iter().map(|(e, _)| *e).collect();
         let new: Vec<Entity> = after.into_iter().filter(|e| !before.contains(e)).collect();
